@@ -331,7 +331,9 @@ class WF:
                 # used before its declaration (already reported by text_facts): give it a free sort
                 memo[n] = self.fresh(n)
                 return memo[n]
-            P.append(("c10:pure", f"{n} used as a pure value"))
+            if d is not None or n in self.params:
+                P.append(("c10:pure", f"{n} ({d[0] if d else 'parameter'}) used as a pure value"))
+            # an undeclared identifier is a C11 fact (reported by text_facts); its sort stays unconstrained here
             return self.fresh("bad")
         if k != "call":
             P.append(("c10:pure", f"{t} used as a pure value"))
